@@ -9,6 +9,7 @@ Whoosh uses is provided; anything else raises AttributeError loudly.
 import errno
 import hashlib
 import mmap as _real_mmap
+import sys
 import os as _real_os
 import posixpath
 
@@ -817,6 +818,14 @@ class _TimeFacade(object):
         return self._os.kernel.time()
 
     def sleep(self, seconds):
+        # reach probe: which library loop is waiting (lock polling in try_for, the
+        # vanished-file retry of FileIndex.reader, AsyncWriter's poll, ...)
+        try:
+            co = sys._getframe(1).f_code
+            if "/whoosh/" in co.co_filename:
+                self._os.kernel.count("reach:sleep@%s.%s" % (co.co_filename.rsplit("/", 1)[-1][:-3], co.co_name))
+        except ValueError:
+            pass
         self._os.kernel.sleep(seconds)
 
     def __getattr__(self, name):
